@@ -812,8 +812,9 @@ def _csv(ctx, prog):
                 "not found (unknown idiom)")
 
     def shape(c: T):
-        """(source, filter conds, delimiter) of
+        """(source, filter conds, delimiter, line transform, row conds) of
         [row for row in csv.reader((l for l in SRC if ...), delimiter=d)]"""
+        rowconds = ()
         if c.op == "call":                 # list(csv.reader(...))
             if len(c.args[1]) != 1 or c.args[2]:
                 return None
@@ -822,28 +823,101 @@ def _csv(ctx, prog):
             if len(c.args[2]) != 1:
                 return None
             (it, lid), = c.args[2]
-            if c.args[3] or c.args[1] is not T("elem", it, lid):
+            if c.args[1] is not T("elem", it, lid):
                 return None
+            row = T("elem", it, lid)
+            rowconds = tuple(cc.map(lambda x: T("ROW") if x is row else None)
+                             for cc in c.args[3])
         if not is_call_to(it, "csv.reader") or not it.args[1]:
             return None
         g = it.args[1][0]
-        if g.op != "comp":
+        if g.op != "comp" or len(g.args[2]) != 1:
             return None
         (src, l2), = g.args[2]
-        line = T("elem", src, l2)
-        if g.args[1] is not line:
-            return None
-        conds = tuple(cc.map(lambda x: T("LINE") if x is line else None)
-                      for cc in g.args[3])
-        return src, conds, dict(it.args[2]).get("delimiter")
+        if is_call_to(src, "builtins.enumerate") and len(src.args[1]) == 1 \
+                and not src.args[2]:
+            # for i, line in enumerate(lines): the line is element [1]
+            line = tm.sub(T("elem", src, l2), const(1))
+            inner_src = src.args[1][0]
+        else:
+            line = T("elem", src, l2)
+            inner_src = src
+        line_b = T("elem", inner_src, l2)   # (enumerate read through)
+        sub_ = lambda t: t.map(lambda x: T("LINE") if x is line or
+                               x is line_b else (T("INDEX") if x.op == "index"
+                                                 else None))
+        conds = tuple(sub_(cc) for cc in g.args[3])
+        trans = sub_(g.args[1])
+        inner_src = Interp.unname(inner_src)
+        if inner_src.op == "comp" and len(inner_src.args[2]) == 1:
+            # a generator over a generator: the inner one filters the raw
+            # lines, the outer one transforms what passed
+            (src0, l0), = inner_src.args[2]
+            line0 = T("elem", src0, l0)
+            if inner_src.args[1] is not line0 or conds:
+                return None
+            sub0 = lambda t: t.map(lambda x: T("LINE") if x is line0
+                                   else None)
+            conds = tuple(sub0(cc) for cc in inner_src.args[3])
+            src = src0
+        return src, conds, dict(it.args[2]).get("delimiter"), \
+            trans, rowconds
     sh = [shape(a) for a in alts]
-    ok = all(sh) and sh[0][1] == sh[1][1] and sh[0][2] is sh[1][2]
-    ctx.ob("C07.4", f, ok,
-           "csv_read_matrix: handle and path inputs filter comment lines "
-           "and split by the caller's delimiter identically" if ok else
-           "csv_read_matrix: the handle branch and the path branch treat "
-           "comments / delimiters differently", key="C07.4:siblings")
+    if not all(sh):
+        # a comment filter that only works on a prefix of the file
+        # (itertools.dropwhile): a comment line between data rows reaches
+        # the csv parser
+        dw = [x for a in alts for x in a.walk()
+              if is_call_to(x, "itertools.dropwhile")]
+        if dw:
+            ctx.ob("C07.4", f, False,
+                   "csv_read_matrix: comment lines are skipped with "
+                   "itertools.dropwhile, i.e. only the block at the top of "
+                   "the file — a line starting with the comment string "
+                   "between data rows is parsed as data (shifted / "
+                   "non-numeric row) instead of being ignored",
+                   key="C07.4:comment-filter")
+        else:
+            ctx.undecidable("C07.4", f, "csv_read_matrix: the rows are not "
+                            "built as csv.reader over a generator that "
+                            "filters the lines (unknown idiom)")
+    else:
+        ok = sh[0][1:] == sh[1][1:]
+        ctx.ob("C07.4", f, ok,
+               "csv_read_matrix: handle and path inputs filter comment "
+               "lines and split by the caller's delimiter identically"
+               if ok else
+               "csv_read_matrix: the handle branch and the path branch "
+               "treat comments / delimiters / lines differently: "
+               f"{[fmt(x)[:60] for x in sh[0][1:4]]} vs "
+               f"{[fmt(x)[:60] for x in sh[1][1:4]]}",
+               key="C07.4:siblings")
+        for k_, s_ in zip(("handle", "path"), sh):
+            if s_[4]:
+                ctx.ob("C07.4", f, False,
+                       f"csv_read_matrix[{k_}]: parsed rows are dropped "
+                       f"under a condition ({fmt(s_[4][0])[:60]}): e.g. a "
+                       f"blank line between data rows is skipped silently "
+                       f"instead of being rejected as a malformed row",
+                       key="C07.4:row-filter")
+            if s_[3] is not T("LINE"):
+                bomstrip = any(tm.is_const(x) and isinstance(
+                    tm.const_val(x), str) and "\ufeff" in tm.const_val(x)
+                    for x in s_[3].walk())
+                if bomstrip and s_[1]:
+                    ctx.ob("C07.4", f, False,
+                           f"csv_read_matrix[{k_}]: the byte-order mark is "
+                           f"removed from the line ({fmt(s_[3])[:50]}) only "
+                           f"after the comment test saw the raw line: the "
+                           f"first line of a BOM file that is a comment "
+                           f"does not start with the comment string and is "
+                           f"parsed as data", key="C07.4:bom-after-filter")
+                else:
+                    ctx.undecidable("C07.4", f, f"csv_read_matrix[{k_}]: "
+                                    f"lines are transformed before parsing "
+                                    f"({fmt(s_[3])[:60]})")
     if all(sh):
+        sh = [x[:3] for x in sh]
         want = (T("not", tm.call(tm.attr(T("LINE"), "startswith"),
                                  (tm.param("comment_str"),), ())),)
         ok = sh[0][1] == want and sh[0][2] is tm.param("delim")
@@ -875,10 +949,20 @@ def _csv(ctx, prog):
                 return True
             return x.op == "ite" and bom(x.args[0]) and sig(x.args[1])
         ok = len(opens) == 1 and len(encs) == 1 and sig(encs[0])
-    ctx.ob("C07.4", seeks[0] if seeks else f, ok,
-           "exactly 3 bytes are skipped iff the file has a UTF-8 BOM" if ok
-           else "BOM skipping deviates (not 3 bytes / not tied to "
-                "has_utf8_bom)", key="C07.4:bom-skip")
+    if not ok and not seeks and any(
+            tm.is_const(x) and isinstance(tm.const_val(x), str) and
+            "\ufeff" in tm.const_val(x) for x in ret.walk()):
+        # the mark is handled on the decoded text (U+FEFF stripped from a
+        # line): another mechanism, judged with the line transform above
+        ctx.undecidable("C07.4", f, "csv_read_matrix: byte-order mark "
+                        "handled on the decoded text (U+FEFF), not by "
+                        "seek(3) / utf-8-sig")
+        ok = None
+    if ok is not None:
+        ctx.ob("C07.4", seeks[0] if seeks else f, ok,
+               "exactly 3 bytes are skipped iff the file has a UTF-8 BOM"
+               if ok else "BOM skipping deviates (not 3 bytes / not tied to "
+               "has_utf8_bom)", key="C07.4:bom-skip")
     g = prog.func(FI + "has_utf8_bom")
     rg = Interp(prog).run(g)
     consts = [x.args[1] for x in rg.ret.walk() if tm.is_const(x) and
